@@ -3,7 +3,6 @@
 UNITS = {
     "u1": {"kc": ["u1.kc"], "desc": "internal.rs + lib.rs + future.rs against the opaque-signal prelude"},
     "u2": {"kc": ["u2.kc"], "desc": "mutex.rs + backoff.rs + pointer-free part of signal.rs against atomic stand-ins"},
-    "C19": mk(["u1"], T_SIGNAL, [R1, R2, R3, A1, A2, A5], "full functional post-condition of drain_into including both loops"),
 }
 
 # exits that are legitimately unreachable under the stated pre-conditions (vacuity guard exceptions)
